@@ -13,3 +13,7 @@ func AsyncStart() {}
 
 // AsyncDone see AsyncStart.
 func AsyncDone() {}
+
+// BeforeLock marks a point where the caller is about to take a blocking lock; probe reports
+// whether the lock could be taken right now without blocking.
+func BeforeLock(name string, probe func() bool) {}
